@@ -234,7 +234,56 @@ def run(repo, rep, tier):
         "key", construct="package-digest-complete", where=L.where(gp),
         detail=str(ups))
     versions_total(repo, rep)
+    _objects_by_name(repo, rep)
     L.state_rule(repo, rep)
+
+
+def _objects_by_name(repo, rep, rule="R15.1"):
+    """option values that are objects (the default marker, the tokenizer,
+    the expression-type factories) enter the key by _stable_name(), never by
+    their repr (an address, or a text two different objects share); the
+    table of expression types is formatted from a sorted list, not from a
+    generator or a dict view (whose text is an address / an order)"""
+    d = repo.func("chameleon.zpt.template.PageTemplate.digest")
+    wh = L.where(d)
+    objs = ("default_marker", "tokenizer")
+    loops = [lp for lp in ast.walk(d.node) if isinstance(lp, ast.For)
+             and isinstance(lp.iter, (ast.Tuple, ast.List))
+             and {e.value for e in lp.iter.elts
+                  if isinstance(e, ast.Constant)} & set(objs)]
+    okl = bool(loops)
+    for lp in loops:
+        var = src(lp.target)
+        ups = [c for c in ast.walk(lp) if isinstance(c, ast.Call)
+               and isinstance(c.func, ast.Attribute)
+               and c.func.attr == "update"]
+        for u in ups:
+            t_ = src(L.inline_locals(lp, u.args[0])) if u.args else ""
+            if "_stable_name(getattr(self, %s))" % var not in t_:
+                okl = False
+    rep.check(okl, rule, d.qualname, "the default marker and the tokenizer "
+              "enter the key by their stable names",
+              construct="objects-by-stable-name", where=wh)
+    tys = [a for a in ast.walk(d.node) if isinstance(a, ast.Assign)
+           and "expression_types" in src(a.value)]
+    okt = bool(tys)
+    for a in tys:
+        v = a.value
+        if not (isinstance(v, ast.Call) and src(v.func) == "sorted" and
+                v.args):
+            okt = False
+            continue
+        inner = v.args[0]
+        elt = inner.elt if isinstance(inner, (ast.GeneratorExp,
+                                              ast.ListComp)) else None
+        if not (isinstance(elt, ast.Tuple) and len(elt.elts) == 2 and
+                isinstance(elt.elts[1], ast.Call) and
+                src(elt.elts[1].func) == "_stable_name"):
+            okt = False
+    rep.check(okt, rule, d.qualname, "the expression types enter the key "
+              "as a sorted list of (prefix, stable name of the factory)",
+              construct="types-sorted-by-name", where=wh,
+              detail="; ".join(src(a.value)[:80] for a in tys))
 
 
 def versions_total(repo, rep, rule="R15.1"):
